@@ -93,7 +93,10 @@ private theorem lookup_append_other {α} (l : List (String × α)) (i j : String
 
 /-- isolation: the stores of several sessions share one directory / one database, keyed by the session id (file-name
     prefix, id columns); an operation on session `i` rewrites entry `i` of the backing and leaves the entry of every other
-    session `j` unchanged.  (`createFilenamePrefix` is injective on ids without `_`/`-`; DESIGN §9 D14.) -/
+    session `j` unchanged.  The KEY of a file-store session is its file-name prefix (`Drv.filePrefixKey`, mirroring
+    `createFilenamePrefix`), which is NOT injective on session ids: besides ids containing `_`/`-` (DESIGN §9 D14), a SenderSubID
+    and a SenderLocationID with the same value (likewise on the target side) give the same key — two such sessions are one store
+    on disk.  That is the recorded finding `C16/sessions_share_files`; the theorem speaks about distinct KEYS. -/
 theorem C16_isolation {α} (l : List (String × α)) (i j : String) (v : α) (h : i ≠ j) :
     (bset l i v).lookup j = l.lookup j := by
   unfold bset
